@@ -89,6 +89,7 @@ type lexer struct {
 	aliases   []*alias
 	stack     []int
 	arithExpr bool
+	begun     bool
 	paren     int
 	heredoc   heredoc
 	word      ast.Word
@@ -230,6 +231,7 @@ func (l *lexer) lexSimpleCmd() action {
 	case len(l.word) == 1:
 		if w, ok := l.word[0].(*ast.Lit); ok && l.isName(w.Value) {
 			// lookahead
+			l.begun = true
 			l.word = nil
 			l.mark(0)
 			tok := l.scanToken()
@@ -979,7 +981,12 @@ func (l *lexer) scanRawToken() int {
 			if l.lit(); len(l.word) != 0 {
 				return WORD
 			}
-			if !l.linebreak() {
+			if !l.begun {
+				// leading comment lines
+				if !l.linebreak() {
+					return -1
+				}
+			} else if !l.skipComment() {
 				return -1
 			}
 		default:
@@ -1555,6 +1562,27 @@ func (l *lexer) linebreak() bool {
 	}
 }
 
+// skipComment consumes a comment up to, but not including, the
+// <newline> which terminates it.
+func (l *lexer) skipComment() bool {
+	l.read()
+	l.mark(-1)
+	for {
+		r, err := l.read()
+		if err != nil {
+			l.comment()
+			return false
+		}
+
+		if r == '\n' {
+			l.unread()
+			l.comment()
+			return true
+		}
+		l.b.WriteRune(r)
+	}
+}
+
 func (l *lexer) comment() {
 	if l.b.Len() != 0 {
 		l.comments = append(l.comments, &ast.Comment{
@@ -1623,6 +1651,7 @@ func (l *lexer) emit(typ int) {
 		}
 	}
 	l.word = nil
+	l.begun = true
 	select {
 	case <-l.cancel:
 		// an error has been recorded
